@@ -44,3 +44,11 @@ def nnps_sum(a, b, k):
                          "corrected_sum(counts, result, vsum(counts) + len(counts) / 2, len(counts))"])
     R.lemma("vsum_nonneg", params={"a": "List[Int]", "lo": "Int", "hi": "Int"},
             requires=["0 <= lo", "lo <= hi", "forall(i, lo, hi, a[i] >= 0)"], ensures=["asum(a, lo, hi) >= 0"], induct=("hi", "lo"))
+    # counting lemmas for boolean row masks (instantiated automatically by pyvc/mat2.py where a mask selects rows)
+    R.lemma("mcount_range", params={"p": "List[Bool]", "n": "Int"}, requires=["n >= 0"],
+            ensures=["0 <= mcount(p, n)", "mcount(p, n) <= n"], induct=("n", "0"))
+    R.lemma("mcount_complement", params={"p": "List[Bool]", "q": "List[Bool]", "n": "Int"},
+            requires=["n >= 0", "forall(i, 0, n, p[i] != q[i])"], ensures=["mcount(p, n) + mcount(q, n) == n"], induct=("n", "0"))
+    R.lemma("mcount_pos", params={"p": "List[Bool]", "n": "Int", "k": "Int"}, requires=["0 <= k", "k < n", "p[k]"],
+            ensures=["mcount(p, n) >= 1"], induct=("n", "k + 1"), use=["mcount_range(p, k)"])
+
